@@ -96,6 +96,7 @@ theorem Sig.fold_results (rs : List ValTy) (a : Sig) (h : a.results = []) :
   | nil => cases a; simp_all [resultsS, foldFields]
   | cons r rs =>
     have := mapOpt_map ValTy.ofS ValTy.toS ValTy.ofS_toS (r :: rs)
+    simp only [List.map_cons] at this
     simp [resultsS, foldFields, Sig.step, h, this]
 
 theorem Sig.ofArgs_args (s : Sig) : Sig.ofArgs s.args = some s := by
@@ -134,10 +135,22 @@ theorem globalTyOf_mut (t : ValTy) : globalTyOf (L [K "mut", t.toS]) = some (tru
 theorem globalTyOf_const (t : ValTy) : globalTyOf t.toS = some (false, t) := by
   simp [globalTyOf, ValTy.toS]
 
+@[simp] theorem popName_valTy (t : ValTy) (r : List SExp) : popName (t.toS :: r) = (none, t.toS :: r) := rfl
+
 theorem Global.ofArgs_args (g : Global) : Global.ofArgs g.args = some g := by
   obtain ⟨n, mu, ty, v⟩ := g
-  cases n <;> cases mu <;>
-    simp [Global.ofArgs, Global.args, optName, popName, globalTyOf_mut, globalTyOf_const]
+  have hp : ∀ (t : SExp), (t = ty.toS ∨ t = L [K "mut", ty.toS]) → ∀ r, popName (optName n ++ t :: r) = (n, t :: r) := by
+    intro t ht r
+    cases n with
+    | none => rcases ht with rfl | rfl <;> rfl
+    | some s => rfl
+  cases mu
+  · simp only [Global.ofArgs, Global.args, Bool.false_eq_true, if_false]
+    rw [hp _ (Or.inl rfl)]
+    simp [globalTyOf_const]
+  · simp only [Global.ofArgs, Global.args, if_true]
+    rw [hp _ (Or.inr rfl)]
+    simp [globalTyOf_mut]
 
 theorem Data.ofArgs_args (d : Data) : Data.ofArgs d.args = some d := by
   obtain ⟨n, o, b⟩ := d
